@@ -460,7 +460,7 @@ def _cross_talk_block(rng, tier):
 def gen(rng, tier):
     big = tier != "quick"
     cases = _cross_talk_block(rng, tier)
-    for _ in range(250 if not big else 8000):
+    for _ in range(150 if not big else 8000):
         cases.append(_multi(rng))
     for _ in range(700 if not big else 30000):
         cases.append(_chain(rng))
